@@ -104,6 +104,10 @@ func formatRequest(r *http.Request) string {
 func (cu *CurlJob) Execute(ctx context.Context) error {
 	cu.mtx.Lock()
 	cu.request = cu.request.WithContext(ctx)
+	if cu.response != nil && cu.response.Body != nil {
+		// release the connection held by the previous response
+		_ = cu.response.Body.Close()
+	}
 	var err error
 	cu.response, err = cu.httpClient.Do(cu.request)
 
